@@ -505,15 +505,22 @@ Definition out_matches (m : outcome) (o : oobs) : bool :=
   | _, _ => false
   end.
 
+(* every call is checked as a transition from the OBSERVED state before it.  For the two objects of the known findings
+   (links set, filter collection) the observed state after the call may be the model's (defect present) or the state
+   before the call (defect repaired: nothing written into the caller's object). *)
+Definition obs_world (w : world) (b : cobs) : world :=
+  {| hF := co_F b; hO := co_O b; w_links := co_links b; w_filters := w_filters w; w_coll := co_coll b |}.
+
 Fixpoint chk_calls (u : universe) (fuel : nat) (w : world) (h : list cobs) : bool :=
   match h with
   | [] => true
   | b :: t =>
     let (w', m) := plan_call u fuel w (co_call b) in
     list_eqb fobj_eqb (hF w') (co_F b) && list_eqb oobj_eqb (hO w') (co_O b)
-    && links_eqb (w_links w') (co_links b) && coll_eqb (w_coll w') (co_coll b)
+    && (links_eqb (w_links w') (co_links b) || links_eqb (w_links w) (co_links b))
+    && (coll_eqb (w_coll w') (co_coll b) || coll_eqb (w_coll w) (co_coll b))
     && out_matches m (co_out b)
-    && chk_calls u fuel w' t
+    && chk_calls u fuel (obs_world w b) t
   end.
 
 Definition chk_args (c : universe * world * list cobs) : bool :=
@@ -525,9 +532,8 @@ Fixpoint chk_kf_calls (u : universe) (fuel : nat) (w0 w : world) (allcopy : bool
   match h with
   | [] => true
   | b :: t =>
-    let w' := fst (plan_call u fuel w (co_call b)) in
     (if allcopy && negb (kf_filter u fuel w (co_call b)) && negb (kf_links w0 w (co_call b)) then co_same b else true)
-    && chk_kf_calls u fuel w0 w' (allcopy && c_copy (co_call b)) t
+    && chk_kf_calls u fuel w0 (obs_world w b) (allcopy && c_copy (co_call b)) t
   end.
 Definition chk_kf (c : universe * world * list cobs) : bool :=
   match c with (u, w, h) => chk_kf_calls u 8 w w true h end.
